@@ -63,7 +63,7 @@ class CCodeMapper(SimplifyingSortingStringifyMapper):
         >>> for name, value in ccm.cse_name_list:
         ...     print("%s = %s;" % (name, value))
         ...
-        _cse_u = 3 * x * x + -5;
+        _cse_u = 3 * (x * x) + -5;
         >>> print(result)
         _cse_u / (_cse_u + 3) * (_cse_u + 5)
 
@@ -99,11 +99,14 @@ class CCodeMapper(SimplifyingSortingStringifyMapper):
 
     def map_product(self, expr, enclosing_prec):
         from pymbolic.mapper.stringifier import PREC_PRODUCT
+        from pymbolic.primitives import Remainder
         return self.parenthesize_if_needed(
                 # Spaces prevent '**z' (times dereference z), which
                 # is hard to read.
 
-                self.join_rec(" * ", expr.children, PREC_PRODUCT),
+                # x * (y % z) is not (x * y) % z
+                self.join_rec(" * ", expr.children, PREC_PRODUCT,
+                    force_parens_around=(Remainder,)),
                 enclosing_prec, PREC_PRODUCT)
 
     def map_constant(self, x, enclosing_prec):
@@ -128,7 +131,7 @@ class CCodeMapper(SimplifyingSortingStringifyMapper):
                 func, self.join_rec(", ", expr.parameters, PREC_NONE))
 
     def map_power(self, expr, enclosing_prec):
-        from pymbolic.mapper.stringifier import PREC_NONE
+        from pymbolic.mapper.stringifier import PREC_NONE, PREC_PRODUCT
         from pymbolic.primitives import is_constant, is_zero
         if is_constant(expr.exponent):
             if is_zero(expr.exponent):
@@ -136,6 +139,11 @@ class CCodeMapper(SimplifyingSortingStringifyMapper):
             elif is_zero(expr.exponent - 1):
                 return self.rec(expr.base, enclosing_prec)
             elif is_zero(expr.exponent - 2):
+                if enclosing_prec >= PREC_PRODUCT:
+                    # The square is emitted as a product. As an operand
+                    # of * / % it needs its own parentheses.
+                    return self.parenthesize(
+                            self.rec(expr.base*expr.base, PREC_PRODUCT))
                 return self.rec(expr.base*expr.base, enclosing_prec)
 
         return self.format("pow(%s, %s)",
